@@ -1,5 +1,5 @@
 // C08 - indexed bitmaps read back valid and round-trip pixels, palette, geometry.
-// Small-scope exhaustive: depth x width 0..66 (every residue of row bits mod 32) x height -3..3 x palette forms,
+// Small-scope exhaustive: depth x width 0..66 (every residue of row bits mod 32) x height -8..8 x palette forms,
 // factory grid, scan-line flips; against an independent BMP encoder/decoder.
 #include "mc/mc.hpp"
 #include "Stream/FileWriter.h"
@@ -210,8 +210,8 @@ void build(Ctx& ctx)
 {
 	gCases.clear(); gWidths.clear(); gHeights.clear();
 	for (int32_t w = 0; w <= 66; ++w) gWidths.push_back(w);
-	for (int32_t h = -3; h <= 3; ++h) gHeights.push_back(h);
-	if (ctx.thorough) { for (int32_t w = 67; w <= 130; ++w) gWidths.push_back(w); for (int32_t w : { 255, 256, 257, 1023, 1024, 1025, 4095, 4097 }) gWidths.push_back(w); for (int32_t h : { 4, 5, 8, 9, 31, 32, 33, -4, -5, -8, -9, -31, -32, -33 }) gHeights.push_back(h); }
+	for (int32_t h = -8; h <= 8; ++h) gHeights.push_back(h);  // from 4 rows on an in-place flip has a second swap to get wrong (seeded change S08r)
+	if (ctx.thorough) { for (int32_t w = 67; w <= 130; ++w) gWidths.push_back(w); for (int32_t w : { 255, 256, 257, 1023, 1024, 1025, 4095, 4097 }) gWidths.push_back(w); for (int32_t h : { 9, 31, 32, 33, -9, -31, -32, -33 }) gHeights.push_back(h); }
 	for (int d : { 1, 4, 8 }) for (std::size_t i = 0; i < gWidths.size(); i += 6) { gCases.push_back({ 0, d, int32_t(i), int32_t(std::min(i + 6, gWidths.size())) }); gCases.push_back({ 1, d, int32_t(i), int32_t(std::min(i + 6, gWidths.size())) }); }
 	gCases.push_back({ 2, 0, 0, 0 });
 	gCases.push_back({ 3, 0, 0, 0 });
